@@ -535,8 +535,17 @@ class GlueUnSerializer(object):
                 self._working.remove(obj_id)
 
             if isgeneratorfunction(func):
-                for _ in gen:  # ... and finish constructing it
-                    pass
+                try:
+                    for _ in gen:  # ... and finish constructing it
+                        pass
+                except Exception:
+                    # If the object could not be completed (e.g. because a
+                    # deferred callback tried to load it too early and hit a
+                    # circular reference), forget the half-constructed object
+                    # so that it is built again, completely, later on.
+                    if isinstance(obj_id, str):
+                        self._objs.pop(obj_id, None)
+                    raise
 
         finally:
 
